@@ -570,10 +570,13 @@ def _server_state(world, server):
                                                     len(world.socks))
 
 
-def run_server(to_ns, sysns, events):
+def run_server(to_ns, sysns, events, lbs=32768):
     """events: (now, frames, ready, io); frames = [(ch, cmdkey, payload, tag)], ready = [sock id],
     io = [("k",) | ("e", errno) | ("d", bytes) | ("f", bytes, (ip, port)) | ("n", k)]
-    Drives the real server.main; returns canonical per-step strings."""
+    Drives the real server.main; returns canonical per-step strings.
+    lbs = server.main's latency_buffer_size argument (what the client passes on from --latency-buffer-size; main stores
+    it in ssnet.LATENCY_BUFFER_SIZE, restored here).  Bytes of the tunnel that one Mux read (at most lbs bytes) leaves
+    behind stay in the pipe, which then stays readable in the following iterations."""
     import sshuttle.server as server
     import sshuttle.ssnet as ssnet
     import sshuttle.helpers as helpers
@@ -604,8 +607,9 @@ def run_server(to_ns, sysns, events):
         world.io = list(io)
         rl = []
         if frames:
-            world.rfile.chunks = [b"".join(struct.pack("!ccHHH", b"S", b"S", ch, CMD[k], len(d)) + d
-                                           for ch, k, d, tag in frames)]
+            world.rfile.chunks = world.rfile.chunks + [b"".join(struct.pack("!ccHHH", b"S", b"S", ch, CMD[k], len(d)) + d
+                                                                for ch, k, d, tag in frames)]
+        if world.rfile.chunks:
             rl.append(world.rfile)
         for s in r:
             if getattr(s, "id", None) in ready and s not in rl:
@@ -632,6 +636,7 @@ def run_server(to_ns, sysns, events):
             pass
     saved = (server.socket, server.time, server.io, server.get_random_nameserver, server.log, ssnet.select,
              ssnet.runonce, ssnet.set_non_blocking_io, ssnet.log, helpers.log, sys.stdout)
+    saved_lbs = ssnet.LATENCY_BUFFER_SIZE
     try:
         server.socket = Shim(real_socket, socket=make_sock_class(world), getaddrinfo=gai)
         server.time = clock_shim(world)
@@ -643,7 +648,7 @@ def run_server(to_ns, sysns, events):
         ssnet.set_non_blocking_io = lambda fd: None
         sys.stdout = Sink()
         try:
-            server.main(False, 32768, False, ("%s@%d" % to_ns) if to_ns else None, False)
+            server.main(False, lbs, False, ("%s@%d" % to_ns) if to_ns else None, False)
             out.append("RETURNED")
         except StopScript:
             pass
@@ -654,6 +659,7 @@ def run_server(to_ns, sysns, events):
     finally:
         (server.socket, server.time, server.io, server.get_random_nameserver, server.log, ssnet.select,
          ssnet.runonce, ssnet.set_non_blocking_io, ssnet.log, helpers.log, sys.stdout) = saved
+        ssnet.LATENCY_BUFFER_SIZE = saved_lbs
     return out
 
 
@@ -1543,6 +1549,8 @@ def run_check(ctx, prop):
         if fails:
             ctx.violation("%s: %s" % (base, WITNESS[fid]["what"]), {"witness": fid, "script": WITNESS[fid], "outcome": last})
     _codec_cases(ctx, rng, quick)
+    if prop == "C11":
+        run_c11_reply_sizes(ctx)
     _system_cases(ctx, rng, quick)
 
     # ---- client scripts
@@ -1625,6 +1633,8 @@ def run_check(ctx, prop):
 
 def replay(ctx, rp, prop):
     r = rp.get("replay", {})
+    if r.get("oracle") == "reply-size":
+        return replay_c11_reply_size(rp)
     if "witness" in r:
         fails, last = witness_fails(r["witness"])
         print("witness", r["witness"], "->", last)
@@ -2017,6 +2027,11 @@ def replay_flows(prop, rp):
 # C08 on the datagram flows: socket faults of one flow, persistent or transient, on either end
 
 SERVER_FAULT_KINDS = ["dns_connect", "dns_send", "dns_recv", "udp_sendto", "udp_recvfrom"]
+# "a late message for a flow already closed / a flow being closed": the END of a flow (the client's UDP_CLOSE, the
+# 30-second deadline of a query, the first answer of a query) falls into the SAME select round in which that flow's own
+# socket is ready (a reply is pending, or its recvfrom/recv fails with the errno given).  errno None = a reply is read.
+SERVER_COINCIDENCE_KINDS = ["udp_close_ready", "udp_close_ready_with_others", "udp_close_reopen_ready",
+                            "udp_close_then_ready", "dns_deadline_ready", "dns_answer_and_deadline"]
 FAULT_OPS = {"dns_connect": ["connect"], "dns_send": ["send"], "dns_recv": ["recv"], "udp_sendto": ["sendto"],
              "udp_recvfrom": ["recvfrom"]}
 
@@ -2088,7 +2103,7 @@ class ServerFaultCase:
         self.expect(st, "S:%d:%s:1" % (self.qsocks[0] if self.qsocks else -1, hx(b"healthy-query")), "healthy query sent")
         for j, (kind, e, persistent) in enumerate(self.faults):
             ch = 10 + j
-            rule = ("P", e, FAULT_OPS[kind])
+            rule = ("P", e, FAULT_OPS.get(kind, []))
             if kind in ("dns_connect", "dns_send"):
                 if persistent:
                     io = [rule]
@@ -2110,6 +2125,8 @@ class ServerFaultCase:
                 else:
                     st = self.h_send(b"during-%d" % j, [(ch, "O", b"2", 0), (ch, "D", hdr + b"v0", 0), (ch, "D", hdr + b"v1", 0)],
                                      [("e", e), ("k",)])
+            elif kind in SERVER_COINCIDENCE_KINDS:
+                st = self.coincidence(j, kind, e)
             else:
                 st = self.h_send(b"before-%d" % j, [(ch, "O", b"2", 0), (ch, "D", b"198.51.100.7,7,v0", 0)], [("k",)])
                 for _ in range(3 if persistent else 1):
@@ -2137,15 +2154,62 @@ class ServerFaultCase:
             self.expect(st, "F:3:%d:%s" % (CMD["R"], hx(b"answer-after")), "answer of the query asked after the fault relayed")
         return self.finish()
 
+    def coincidence(self, j, kind, e):
+        """the end of victim flow j and the readiness of its own socket in one select round (see SERVER_COINCIDENCE_KINDS)"""
+        ch = 10 + j
+        peer = ("198.51.100.7", 7)
+        pending = ("e", e) if e is not None else ("f", b"late-reply-%d" % j, peer)
+        if kind.startswith("udp"):
+            st = self.h_send(b"before-%d" % j, [(ch, "O", b"2", 0), (ch, "D", b"198.51.100.7,7,v0", 0)], [("k",)])
+            vs = self.udp_sock(st, ch) if st else None
+            if vs is None:
+                return st
+            if kind == "udp_close_ready":
+                st = self.it([(ch, "C", b"", 0)], [vs], [pending])
+            elif kind == "udp_close_ready_with_others":
+                # the healthy association's socket is ready in the same round; it was created first, so it is served first
+                st = self.it([(1, "D", b"192.0.2.9,4500,h-same-round", 0), (ch, "C", b"", 0)], sorted([self.hsock, vs]),
+                             [("k",), ("f", b"h-same-round-reply", ("192.0.2.9", 4500)), pending])
+                self.expect(st, "F:1:%d:%s" % (CMD["D"], hx(b"192.0.2.9,4500,h-same-round-reply")),
+                            "reply for the healthy association in the round that closes the victim")
+            elif kind == "udp_close_reopen_ready":
+                # UDP_CLOSE and a new UDP_OPEN of the identifier in two consecutive rounds, the old socket ready in both
+                st = self.it([(ch, "C", b"", 0)], [vs], [pending])
+                st = st and self.it([(ch, "O", b"2", 0), (ch, "D", b"198.51.100.7,7,v-again", 0)], [vs], [("k",), pending])
+                st = st and self.it([(ch, "C", b"", 0)], [], [])
+            else:
+                st = self.it([(ch, "C", b"", 0)], [], [])
+                st = st and self.it([], [vs], [pending])
+            return st
+        # DNS: the victim's query is asked, then 31 s pass (every query asked so far is past its deadline, also the
+        # healthy one, whose answer is therefore not probed any more)
+        st = self.h_send(b"before-%d" % j, [(ch, "Q", b"victim-%d" % j, 0)], self.ns() + [("k",), ("k",)])
+        socks = self.dns_socks(st, ch) if st else []
+        if not socks:
+            return st
+        self.qsocks = []
+        reply = ("e", e) if e is not None else ("d", b"late-answer-%d" % j)
+        if kind == "dns_deadline_ready":
+            st = self.it([], socks[:1], [reply] + self.ns() + [("k",), ("k",)], dt=31)
+        else:
+            st = self.it([], socks[:1], [reply] + self.ns() + [("k",), ("k",)], dt=30)
+            st = st and self.it([], socks[:1], [reply], dt=1)
+        return st and self.it([], socks[:1], [reply])
+
     def finish(self):
         for i, st in enumerate(self.steps):
             if not st.startswith("OK "):
                 self.bad.insert(0, ("server_raised", "iteration %d -> %s (peer conforming; injected: %s)"
-                                    % (i, st, ", ".join("%s %s %s" % (k, errname(e), "persistent" if p else "transient")
-                                                        for k, e, p in self.faults))))
+                                    % (i, st, ", ".join(fault_name(k, e, p) for k, e, p in self.faults))))
         if len(self.steps) < len(self.evs) and not any(not s.startswith("OK ") for s in self.steps):
             self.bad.insert(0, ("server_raised", "the loop stopped after iteration %d" % (len(self.steps) - 1)))
         return self
+
+
+def fault_name(k, e, p):
+    if k in SERVER_COINCIDENCE_KINDS:
+        return "%s (%s pending)" % (k, "a reply" if e is None else errname(e))
+    return "%s %s %s" % (k, errname(e), "persistent" if p else "transient")
 
 
 def server_fault_oracle(to_ns, sysns, evs, steps):
@@ -2157,22 +2221,34 @@ def run_c08_dgram(ctx):
     rng, quick = ctx.rng, ctx.quick()
     # ---- server: every fault kind x every errno, persistent and transient, alone; then random sequences
     plans = [[(k, e, p)] for k in SERVER_FAULT_KINDS for e in ERRNO_ALL for p in (True, False)]
-    for _ in range(60 if quick else 2500):
-        plans.append([(rng.choice(SERVER_FAULT_KINDS), rng.choice(ERRNO_ALL), rng.random() < 0.5) for _ in range(rng.randint(2, 3))])
+    # the end of a flow and the readiness of its own socket in one select round: every kind x {reply pending, 5 errnos}
+    co_errs = [None, errno.ECONNREFUSED, errno.EHOSTUNREACH, errno.EAGAIN, errno.EPERM, errno.ENOBUFS]
+    plans += [[(k, e, False)] for k in SERVER_COINCIDENCE_KINDS for e in co_errs]
+
+    def rand_fault():
+        if rng.random() < 0.4:
+            return (rng.choice(SERVER_COINCIDENCE_KINDS), rng.choice(co_errs + [None, None]), False)
+        return (rng.choice(SERVER_FAULT_KINDS), rng.choice(ERRNO_ALL), rng.random() < 0.5)
+    for _ in range(80 if quick else 3000):
+        plans.append([rand_fault() for _ in range(rng.randint(2, 3))])
     for faults in plans:
         c = ServerFaultCase(rng, faults).build()
         ctx.count("dgram_server_fault_cases")
         ctx.count("dgram_server_iterations", len(c.evs))
         ctx.count("dgram_server_probes_checked", c.probes)
         for k, e, p in faults:
-            ctx.count("dgram_server_fault_%s_%s" % (k, "persistent" if p else "transient"))
-            ctx.count("dgram_fault_errno_%s" % errname(e))
+            if k in SERVER_COINCIDENCE_KINDS:
+                ctx.count("dgram_server_coincidence_%s_%s" % (k, "reply_pending" if e is None else "error_pending"))
+            else:
+                ctx.count("dgram_server_fault_%s_%s" % (k, "persistent" if p else "transient"))
+            if e is not None:
+                ctx.count("dgram_fault_errno_%s" % errname(e))
         ctx.case(("dgram-server", repr(faults), repr(c.evs)), nontrivial=True,
-                 sample={"side": "dgram-server", "faults": [(k, errname(e), "persistent" if p else "transient") for k, e, p in faults],
+                 sample={"side": "dgram-server", "faults": [fault_name(k, e, p) for k, e, p in faults],
                          "iterations": len(c.evs), "probes": c.probes, "last_step": c.steps[-1][:140] if c.steps else ""})
         for what, detail in c.bad:
             ctx.violation("c08_dgram_" + what, {"script": ser_server(c.to_ns, c.sysns, c.evs), "detail": detail,
-                                               "faults": [[k, errname(e), p] for k, e, p in faults], "oracle": "server-faults"})
+                                               "faults": [fault_name(k, e, p) for k, e, p in faults], "oracle": "server-faults"})
     # ---- client: the delivery of replies to one source fails (bind / sendto of the reply socket), every errno
     plans = [{"mode": mode, "errno": e, "stage": stage} for mode in ("persistent", "transient") for e in ERRNO_ALL for stage in (0, 1)]
     for i in range(len(plans) * (2 if quick else 40)):
@@ -2217,3 +2293,242 @@ def _probe_again(r, steps):
     if not m or int(m.group(1)) >= len(steps):
         return True
     return m.group(2) not in steps[int(m.group(1))].split(" | ")[0][3:].split(",")
+
+
+# ======================================================================
+# C05 on the datagram path: the "ip,port," header of EVERY UDP_DATA message is the destination of THAT datagram
+
+C05_V4 = ["1.2.3.4", "4.3.2.1", "0.0.0.1", "255.255.255.255", "10.0.0.1", "1.0.0.10", "192.168.7.9", "127.0.0.1"]
+C05_V6 = ["::1", "1::", "fd00::1", "2001:db8::53", "::ffff:1.2.3.4", "ffff:ffff:ffff:ffff:ffff:ffff:ffff:ffff",
+          "2001:db8:0:1::1", "2001:db8:1::1"]
+C05_PORTS = [0, 1, 53, 13568, 255, 256, 0x1234, 0x3412, 65535, 65280, 4500, 38161]      # p and its byte-swapped twin
+
+
+def c05_destinations(rng, v6):
+    """2..5 distinct destinations of one source: same host / different port (incl. byte-swapped twins), different
+    host / same port, both different"""
+    ips = C05_V6 if v6 else C05_V4
+    out = []
+    ip, port = rng.choice(ips), rng.choice(C05_PORTS)
+    out.append((ip, port))
+    for _ in range(rng.randint(1, 4)):
+        r = rng.random()
+        if r < 0.35:
+            d = (ip, ((port & 0xff) << 8 | port >> 8) if port not in (0, 65535) and rng.random() < 0.6 else rng.choice(C05_PORTS))
+        elif r < 0.65:
+            d = (rng.choice(ips), port)
+        else:
+            d = (rng.choice(ips), rng.choice(C05_PORTS + [rng.randint(0, 65535)]))
+        if d not in out:
+            out.append(d)
+    if len(out) < 2:
+        out.append((ips[(ips.index(ip) + 1) % len(ips)], port))
+    return out
+
+
+def gen_c05_script(rng, quick):
+    v6 = rng.random() < 0.5
+    family = 10 if v6 else 2
+    nsrc = rng.randint(1, 3)
+    srcs = [((rng.choice(C05_V6[2:4]), 40000 + k, 0, 0) if v6 else (rng.choice(C05_V4[4:7]), 40000 + k)) for k in range(nsrc)]
+    dests = [c05_destinations(rng, v6) for _ in srcs]
+    now = rng.choice([0, 1000, 1000000])
+    evs = []
+    for k in range(rng.randint(3, 10 if quick else 24)):
+        i = rng.randrange(nsrc)
+        now += rng.choice([0, 0, 1, 5, 5, 29, 30, 31, 45])
+        evs.append(("U", now, srcs[i], rng.choice(dests[i]), b"d%d" % k + rand_payload(rng, False)))
+    return "T", rng.choice([65535, 65535, 8, 2]), family, evs
+
+
+def c05_handmade():
+    A, B = ("10.0.0.5", 40001), ("10.0.0.6", 40002)
+    A6 = ("fd00::5", 40003, 0, 0)
+    out = [("T", 65535, 2, [("U", 10, A, ("1.2.3.4", 53), b"a1"), ("U", 11, A, ("4.3.2.1", 53), b"a2"), ("U", 12, B, ("1.2.3.4", 53), b"b1"),
+                            ("U", 13, A, ("1.2.3.4", 13568), b"a3"), ("U", 14, A, ("1.2.3.4", 53), b"a4"), ("U", 50, A, ("4.3.2.1", 0), b"a5"),
+                            ("U", 51, B, ("255.255.255.255", 65535), b"b2"), ("U", 90, A, ("1.2.3.4", 53), b"a6 fresh association")]),
+           ("T", 65535, 10, [("U", 10, A6, ("2001:db8::53", 53), b"x1"), ("U", 11, A6, ("::ffff:1.2.3.4", 53), b"x2"),
+                             ("U", 12, A6, ("2001:db8::53", 13568), b"x3,with,commas"), ("U", 13, A6, ("2001:db8::53", 53), b"x4"),
+                             ("U", 14, A6, ("ffff:ffff:ffff:ffff:ffff:ffff:ffff:ffff", 65535), b""), ("U", 15, A6, ("::1", 0), b"\0")])]
+    return out
+
+
+def c05_oracle(method, maxc, family, evs, steps):
+    """on the wire: every captured datagram with a destination produces exactly one UDP_DATA message whose header names
+    that datagram's destination (compared as packed address + port) and whose payload is the datagram's"""
+    af = real_socket.AF_INET6 if family == 10 else real_socket.AF_INET
+    bad = []
+    n = 0
+    for i, ev in enumerate(evs):
+        if i >= len(steps):
+            break
+        st = steps[i]
+        if not st.startswith("OK "):
+            bad.append(("c05_dgram_raised", "step %d %r -> %s" % (i, ev[:4], st)))
+            break
+        if ev[0] != "U" or ev[3] is None:
+            continue
+        datas = [unhx(o[3]) for o in parse_outs(st) if o[0] == "F" and int(o[2]) == CMD["D"]]
+        frames = [o for o in parse_outs(st) if o[0] == "F" and int(o[2]) in (CMD["D"], CMD["O"])]
+        if not frames and maxc < 10:
+            continue                  # no identifier free: the datagram is dropped (C08's business)
+        n += 1
+        want = (real_socket.inet_pton(af, ev[3][0]), ev[3][1], ev[4][:4096])
+        got = []
+        for d in datas:
+            p = d.split(b",", 2)
+            try:
+                got.append((real_socket.inet_pton(af, p[0].decode("ascii")), int(p[1]), p[2]))
+            except Exception:
+                got.append(("unparsable", d[:60]))
+        if got != [want]:
+            bad.append(("c05_udp_destination_differs", "step %d: datagram of %r to %s port %d was put on the tunnel as %s"
+                        % (i, tuple(ev[2][:2]), ev[3][0], ev[3][1],
+                           [d.split(b",", 2)[:2] if b"," in d else d[:40] for d in datas] or "nothing")))
+    return bad, n
+
+
+def c05_server_oracle(family, evs, steps):
+    """end to end: the frames the real client produced, fed to the real server.main loop: every sendto goes to the
+    destination of the corresponding captured datagram"""
+    frames, dsts = [], []
+    for ev, st in zip(evs, steps):
+        if not st.startswith("OK "):
+            break
+        for o in parse_outs(st):
+            if o[0] == "F" and int(o[2]) in KEY_OF_CMD:
+                frames.append((int(o[1]), KEY_OF_CMD[int(o[2])], unhx(o[3]), 0))
+                if int(o[2]) == CMD["D"]:
+                    dsts.append(ev)
+    if not frames:
+        return [], 0
+    ssteps = run_server(None, [], [(0, frames, [], [])])
+    if not ssteps or not ssteps[0].startswith("OK "):
+        return [("c05_dgram_server_raised", "the server loop stopped on the client's own frames: %r" % ssteps[:1])], 0
+    ts = [o for o in parse_outs(ssteps[0]) if o[0] == "T"]
+    bad = []
+    for ev, o in zip(dsts, ts):
+        if o[2] != "%s@%d" % (hx(ev[3][0]), ev[3][1]) or unhx(o[3]) != ev[4][:4096]:
+            bad.append(("c05_udp_server_sendto_differs", "datagram of %r to %s port %d left the server as sendto(%s)"
+                        % (tuple(ev[2][:2]), ev[3][0], ev[3][1], o[2])))
+    if len(ts) != len(dsts):
+        bad.append(("c05_udp_server_sendto_differs", "%d UDP_DATA messages, %d sendto calls" % (len(dsts), len(ts))))
+    return bad, len(ts)
+
+
+def run_c05_dgram(ctx):
+    rng, quick = ctx.rng, ctx.quick()
+    cases = [c + ("handmade",) for c in c05_handmade()]
+    for _ in range(300 if quick else 6000):
+        cases.append(gen_c05_script(rng, quick) + ("random",))
+    for m, mc, fam, evs, kind in cases:
+        steps = run_client(m, mc, fam, evs)
+        bad, n = c05_oracle(m, mc, fam, evs, steps)
+        bad2, n2 = c05_server_oracle(fam, evs, steps) if not bad else ([], 0)
+        per_src = {}
+        for ev in evs:
+            per_src.setdefault(tuple(ev[2][:2]), set()).add(tuple(ev[3][:2]))
+        ctx.count("dgram_scripts_%s_v%d" % (kind, 6 if fam == 10 else 4))
+        ctx.count("dgram_datagrams_checked_on_the_wire", n)
+        ctx.count("dgram_datagrams_checked_at_server_sendto", n2)
+        ctx.count("dgram_sources_with_2plus_destinations", sum(1 for v in per_src.values() if len(v) >= 2))
+        ctx.count("dgram_destination_changes", sum(1 for a, b in zip(evs, evs[1:]) if a[2] == b[2] and a[3] != b[3]))
+        ctx.case(("dgram", repr(evs)), nontrivial=n > 1,
+                 sample={"side": "dgram-client", "family": fam, "max_channel": mc,
+                         "datagrams": [[list(e[2][:2]), list(e[3])] for e in evs[:6]]})
+        for what, detail in bad + bad2:
+            ctx.violation(what, {"script": ser_client(m, mc, fam, evs), "detail": detail, "oracle": "udp-destinations"})
+
+
+def replay_c05_dgram(rp):
+    sc = rp.get("replay", {}).get("script")
+    m, mc, fam, evs = des_client(sc)
+    steps = run_client(m, mc, fam, evs)
+    bad, n = c05_oracle(m, mc, fam, evs, steps)
+    bad2, n2 = c05_server_oracle(fam, evs, steps) if not bad else ([], 0)
+    print("datagrams checked: %d on the wire, %d at the server ->" % (n, n2), bad + bad2)
+    return bool(bad + bad2)
+
+
+# ======================================================================
+# C11: a reply comes back byte-identical whatever --latency-buffer-size is (implementation-only: the model's
+# BUFSIZE is the literal 4096 of server.py; the buffer size is not a parameter of Model/Dgram.v)
+
+LBS_VALUES = [0, 1, 512, 1024, 4095, 4096, 32768]
+
+
+def reply_size_case(lbs, size, v6, seed):
+    """one association, one request, one reply of `size` bytes from the remote host, through the real server.main
+    (latency_buffer_size=lbs) and back through the real client (udp_done / tproxy.send_udp).
+    Returns (verdict, detail, replayable dict)"""
+    rnd = __import__("random").Random(seed)
+    reply = bytes(rnd.randrange(256) for _ in range(min(size, 64))) * (size // 64 + 1)
+    reply = reply[:size]
+    src = ("fd00::5", 40001, 0, 0) if v6 else ("10.0.0.5", 40001)
+    dst = ("2001:db8::53", 4500) if v6 else ("192.0.2.9", 4500)
+    family = 10 if v6 else 2
+    rep = {"lbs": lbs, "size": size, "v6": v6, "seed": seed, "oracle": "reply-size"}
+    sess = ClientSession("T", 65535, family)
+    try:
+        st = sess.step(("U", 100, src, dst, b"request"))
+        frames = [(int(o[1]), KEY_OF_CMD[int(o[2])], unhx(o[3]), 0) for o in parse_outs(st) if o[0] == "F"]
+        nbytes = sum(8 + len(f[2]) for f in frames)
+        rounds = 1 if lbs >= nbytes or lbs == 0 else -(-nbytes // lbs)
+        evs = [(100, frames, [], [("k",)])] + [(100, [], [], [])] * rounds
+        evs.append((101, [], [0], [("f", reply, dst)]))
+        steps = run_server(None, [], evs, lbs=lbs)
+        if len(steps) < len(evs) or not steps[-1].startswith("OK "):
+            return "server_stopped", "server.main(latency_buffer_size=%d): %r" % (lbs, steps[-1:]), rep
+        sent = [o for s in steps for o in parse_outs(s) if o[0] == "T"]
+        if len(sent) != 1 or unhx(sent[0][3]) != b"request":
+            return "request_lost", "request not forwarded exactly once: %r" % sent, rep
+        back = [o for o in parse_outs(steps[-1]) if o[0] == "F" and int(o[2]) == CMD["D"]]
+        delivered = []
+        for o in back:
+            st = sess.step(("F", int(o[1]), "D", unhx(o[3]), None))
+            delivered += [g for g in (parse_outs(st) or []) if g[0] == "G"]
+    finally:
+        sess.close()
+    want_from, want_to = "%s@%d" % (hx(dst[0]), dst[1]), addr_s(src)
+    if len(delivered) != 1 or delivered[0][1] != want_from or delivered[0][2] != want_to:
+        return "not_one_datagram", "reply of %d bytes, latency buffer %d: delivered %r" % (size, lbs, [g[:3] for g in delivered]), rep
+    got = unhx(delivered[0][3])
+    if size <= 4096:
+        ok = got == reply
+    else:
+        ok = got == reply or got == reply[:4096]     # the reference reads 4096 bytes: longer replies are outside the property
+    if not ok:
+        return "payload_differs", ("reply of %d bytes with --latency-buffer-size %d reached the source as %d bytes%s"
+                                   % (size, lbs, len(got), "" if got != reply[:len(got)] else " (a prefix: truncated)")), rep
+    return "ok_" + ("identical" if got == reply else "first_4096"), "", rep
+
+
+def run_c11_reply_sizes(ctx):
+    rng, quick = ctx.rng, ctx.quick()
+    for lbs in LBS_VALUES:
+        sizes = sorted(set([0, 1, 2, 511, 512, 513, 1023, 1024, 1025, 4094, 4095, 4096, 4097, 5000]
+                           + [s for s in (lbs - 1, lbs, lbs + 1) if 0 <= s <= 5000]
+                           + [rng.randint(0, 4096) for _ in range(3 if quick else 40)]))
+        for size in sizes:
+            v6 = rng.random() < 0.4
+            verdict, detail, rep = reply_size_case(lbs, size, v6, rng.randrange(10 ** 6))
+            ctx.count("reply_size_cases")
+            ctx.count("reply_size_lbs_%d" % lbs)
+            ctx.count("reply_size_%s" % ("above_4096_" + verdict if size > 4096 else verdict))
+            ctx.case(("reply-size", lbs, size, v6), nontrivial=size > 0,
+                     sample={"side": "reply-size", "latency_buffer_size": lbs, "reply_bytes": size, "verdict": verdict})
+            if lbs == 0 and verdict == "server_stopped":
+                # server.main(latency_buffer_size=0) raises UnboundLocalError before its first select (conditional
+                # `import ... as ssnet`): DESIGN 9.4 "observations recorded but not registered"; the client sends 0
+                # only for --latency-buffer-size 0.  Counted, not judged here.
+                ctx.count("reply_size_lbs_0_server_does_not_start_observed")
+                continue
+            if not verdict.startswith("ok_"):
+                ctx.violation("c11_reply_" + verdict, dict(rep, detail=detail))
+
+
+def replay_c11_reply_size(rp):
+    r = rp.get("replay", {})
+    verdict, detail, _ = reply_size_case(r["lbs"], r["size"], r["v6"], r["seed"])
+    print("reply-size case ->", verdict, detail)
+    return not verdict.startswith("ok_")
